@@ -13,9 +13,28 @@ import (
 	"google.golang.org/api/storage/v1"
 )
 
-// afterPrefixGroup, appended to a collapsed prefix, sorts after every object name that starts with that prefix
-// (U+10FFFF is the greatest code point, and object names are valid UTF-8).
+// afterPrefixGroup, appended to a collapsed prefix, marks a cursor that resumes the listing after every object
+// name that starts with that prefix (U+10FFFF is the greatest code point, and object names are valid UTF-8, so
+// only names that themselves continue with U+10FFFF sort after such a cursor; see prefixGroupOfCursor).
 const afterPrefixGroup = "\U0010FFFF"
+
+// prefixGroupOfCursor returns the collapsed prefix whose whole group the cursor stands for, or "" if the cursor is
+// the name of an item. An item of a listing has no delimiter behind the listing's prefix, so it cannot be mistaken
+// for a collapsed prefix (which ends with the first such delimiter) followed by afterPrefixGroup.
+func prefixGroupOfCursor(cursor string, prefix string, delimiter string) string {
+	if delimiter == "" || !strings.HasSuffix(cursor, afterPrefixGroup) {
+		return ""
+	}
+	group := strings.TrimSuffix(cursor, afterPrefixGroup)
+	if !strings.HasPrefix(group, prefix) {
+		return ""
+	}
+	rest := group[len(prefix):]
+	if pos := strings.Index(rest, delimiter); pos < 0 || pos != len(rest)-len(delimiter) {
+		return ""
+	}
+	return group
+}
 
 // Iterate over the file system to serve a GCS list-bucket request.
 func (g *GcsEmu) makeBucketListResults(ctx context.Context, baseUrl HttpBaseUrl, w http.ResponseWriter, delimiter string, cursor string, prefix string, bucket string, maxResults int) {
@@ -34,6 +53,9 @@ func (g *GcsEmu) makeBucketListResults(ctx context.Context, baseUrl HttpBaseUrl,
 			g.log(nil, fmt, args...)
 		}
 	}
+
+	// the collapsed prefix (if any) that the previous page ended with: none of its files is listed again
+	cursorGroup := prefixGroupOfCursor(cursor, prefix, delimiter)
 
 	moreResults := false
 	count := 0
@@ -61,7 +83,7 @@ func (g *GcsEmu) makeBucketListResults(ctx context.Context, baseUrl HttpBaseUrl,
 		}
 
 		// If the file is <= cursor, or < prefix, skip.
-		if filename <= cursor {
+		if filename <= cursor || (cursorGroup != "" && strings.HasPrefix(filename, cursorGroup)) {
 			dbgWalk("%q <= cursor=%q skipping", filename, cursor)
 			return nil
 		}
